@@ -20,17 +20,28 @@ import json
 import multiprocessing
 import random
 
+from props import c10 as _c10
+
 ID = 'C11'
-LEAN_MODULES = ['Py65.Props.C11']
-NAMESPACES = ['Py65.Props.C11']
+# Props.C11: theorems about the hand model; Proofs.ObsMemGenEq: the model regenerated from the current
+# py65/memory.py equals the hand model; Props.C11g: the theorems restated for the regenerated definitions.
+LEAN_MODULES = ['Py65.Props.C11', 'Py65.Proofs.ObsMemGenEq', 'Py65.Props.C11g']
+NAMESPACES = ['Py65.Props.C11', 'Py65.Proofs.ObsMemGenEq', 'Py65.Props.C11g']
 LEVEL = 'proof'
 USES_GEN = False
+pre_build = _c10.pre_build      # tie 1 for py65/memory.py: harness/py2lean_mem.py, before the build
 RULE = ('a program run counts as non-trivial when the program wrote to memory and, if subscribers were '
         'placed, at least one read subscriber and one write subscriber were actually called; distinct = '
         'distinct (device, set of executed opcodes, number of distinct cells written, subscriber '
         'configuration class) signatures among those')
 TRUSTED = [
-    'hand model lean/Py65/Model/ObsMem.lean, tied to py65.memory.ObservableMemory by the C10 correspondence',
+    'tie 1 (regeneration): harness/py2lean_mem.py regenerates lean/Py65/Gen/ObsMemGen.lean from the current '
+    'py65/memory.py on every run (refusing anything outside its subset); lean/Py65/Proofs/ObsMemGenEq.lean proves '
+    'generated = hand model lean/Py65/Model/ObsMem.lean for all arguments, Props/C11g.lean restates the theorems '
+    'for the generated __getitem__/__setitem__/__init__/subscribe_to_*.  Modelled, not regenerated: the Python '
+    'library behaviour in lean/Py65/Model/PyData.lean (defaultdict, list operations, slice.indices) and the '
+    'prelude `call` (a callback call = oracle answer + log entry); the translator itself is trusted',
+    'tie 2: the hand model is tied to py65.memory.ObservableMemory by the C10 sampled correspondence',
     'the reading of a device run as a list of in-range item accesses on its memory object: guaranteed '
     'syntactically by the translator (harness/py2lean.py refuses any use of self.memory other than '
     'indexing) and, for the address range, by C05',
@@ -43,7 +54,8 @@ ASSUMPTIONS = [
     'subscribers answer None, do not raise and do not touch the memory or the device',
 ]
 EXPECTED_THEOREMS = ['Py65.Props.C11.obs_transparent_get', 'Py65.Props.C11.obs_transparent_set',
-                     'Py65.Props.C11.replay_equiv']
+                     'Py65.Props.C11.replay_equiv'] + _c10.GEN_EQ_THEOREMS + [
+    'Py65.Props.C11g.obs_transparent_get', 'Py65.Props.C11g.obs_transparent_set', 'Py65.Props.C11g.replay_equiv']
 
 LEN = {'imp': 1, 'acc': 1, 'imm': 2, 'zpg': 2, 'zpx': 2, 'zpy': 2, 'inx': 2, 'iny': 2, 'rel': 2, 'zpi': 2,
        'abs': 3, 'abx': 3, 'aby': 3, 'ind': 3, 'iax': 3}
